@@ -143,7 +143,7 @@ DecodeAt(c, p, enc) ==
     [] o \in {169, 249} -> Typed("reinterpret")
     [] o = 240 -> [k |-> "unsupported", len |-> 1]
     [] o = 250 -> (LET r == FixAt(c, q, 4, le) IN IF IsDE(r) THEN r ELSE [k |-> "param_ref", off |-> ZExt(r.v, 8), len |-> 5])
-    [] o = 253 -> (LET r == FixAt(c, q, enc.fmt, le) IN IF IsDE(r) THEN r ELSE [k |-> "unsupported", len |-> 1 + enc.fmt])
+    [] o = 253 -> (LET r == FixAt(c, q, enc.fmt, le) IN IF IsDE(r) THEN r ELSE [k |-> "variable_value", off |-> ZExt(r.v, 8), len |-> 1 + enc.fmt])
     [] o = 237 -> (IF q >= Len(c) THEN DE("UnexpectedEof")
                   ELSE LET s == c[q + 1] IN
                        IF s \in {0, 1, 2} THEN
